@@ -448,6 +448,14 @@ func (fs *propSet) buildValue(prop *property, create bool) (Field, bool, error) 
 	if err != nil {
 		return nil, false, err
 	}
+	if oneofSchema, ok := prop.schema.Schema.(*j5schema.OneofField); ok && oneofSchema.Exposed && !create {
+		// an exposed oneof reached through a flattened parent shares the
+		// parent's message: it is set when one of its members is, not when
+		// the parent message merely exists
+		if oneof, ok := built.(*oneofField); ok && !oneof.IsSet() {
+			return nil, false, nil
+		}
+	}
 	prop.value = built
 
 	prop.hasValue = true
